@@ -3,16 +3,21 @@
   Property theorems only (helper lemmas live in Torf.Lemmas.Create / Torf.Lemmas.Sort).
 
   * `C15_created_partial` … the refinement `pathSetter = Spec.created` under `Spec.hypB`;
+  * `C15_no_empty_file(_addressed)` … empty files are never stored: every spelling, every cwd,
+    every pattern set (the repair of D15a, /repo d89a92e, at full strength);
   * `C15_created_full`, `C15_independent_full` … the unrestricted statements, each refuted by
-    concrete witnesses (recorded defects D15a–D15d).
+    concrete witnesses (recorded defects D15b–D15d; D15a's witnesses are regression examples).
 -/
 import Torf.Lemmas.Create
 namespace Torf.C15
 open Torf Torf.Paths Torf.Create
 
-/-- Under `hypB` (well-formed tree, covered spelling, the path leads to the tree, the empty-file
-    probe is right, `commonpath` is the tree's top or harmless) `Torrent.path = spelling` computes
-    exactly the specified torrent — and raises nothing. -/
+/-- Under `hypB` (well-formed tree, covered spelling, the path leads to the tree, what the walk
+    listed exists, `commonpath` of the non-empty files is the tree's top or harmless)
+    `Torrent.path = spelling` computes exactly the specified torrent — and raises nothing.
+    Nothing in `hypB` restricts the working directory or the rest of the file system any more
+    (before /repo d89a92e: `probeOK`, i.e. cwd = the tree's parent or no empty file, and no
+    same-named empty file below the cwd). -/
 theorem C15_created_partial (o : Oracles) (st : Settings) (env : Env) (t : Tree)
     (h : Spec.hypB st env t = true) :
     pathSetter o st env = .ok (Spec.created o st t) :=
@@ -90,7 +95,7 @@ example :
 
 /-- the environment in which file system `fs` is seen from `cwd` -/
 def envOf (fs : FS) (cwd : Comps) (sp : PPath) (order : List FileEnt) : Env :=
-  ⟨cwd, sp, order, fsProbe fs cwd⟩
+  ⟨cwd, sp, order, fsExists fs cwd⟩
 
 /-- the spelling `sp`, read in `cwd`, leads to a place of file system `fs` that holds exactly
     tree `t` -/
@@ -125,19 +130,34 @@ def witExA : Settings := ⟨["T/a.txt"], [], [], []⟩
 def witTa : Tree := ⟨"T", [⟨["a"], 3⟩, ⟨["e"], 0⟩]⟩
 def witFSa : FS := [(["r", "P", "T", "a"], some 3), (["r", "P", "T", "e"], some 0)]
 
-/-- D15a: from inside the tree (`cd T; path = "."`) the empty-file test probes `T/T/e`, finds
-    nothing, and the empty file is listed: `.multi "T" [(["a"],3), (["e"],0)]`. -/
-theorem C15_created_counterexample_D15a : ¬ C15_created_full := by
-  intro h
-  exact absurd (h witO witNoPat witTa witFSa ["r", "P", "T"] ⟨false, ["."]⟩ witTa.files
-    (by decide) (by decide) (List.Perm.refl _)) (by decide)
+/-! D15a (repaired by /repo d89a92e): the empty-file test used to probe `name/rel` relative to the
+    cwd.  Its witnesses are now positive regression examples: from inside the tree, from an
+    unrelated cwd by absolute path, and with an unrelated empty `T/a` below the cwd the model gives
+    the specified torrent `[T/a]`. -/
 
-/-- D15a: `cd P; path = "T"` and `cd P/T; path = "."` give different torrents. -/
-theorem C15_independent_counterexample : ¬ C15_independent_full := by
-  intro h
-  exact absurd (h witO witNoPat witTa witFSa witFSa ["r", "P"] ["r", "P", "T"]
-    ⟨false, ["T"]⟩ ⟨false, ["."]⟩ witTa.files witTa.files
-    (by decide) (by decide) (by decide) (List.Perm.refl _) (List.Perm.refl _)) (by decide)
+/-- an unrelated cwd `/r/U` that holds a same-named *empty* `T/a` and a non-empty `T/e` -/
+def witFSa' : FS := witFSa ++ [(["r", "U", "T", "a"], some 0), (["r", "U", "T", "e"], some 5)]
+
+/-- formerly `C15_created_counterexample_D15a` / `C15_independent_counterexample` -/
+example :
+    Spec.created witO witNoPat witTa = .multi "T" [(["a"], 3)] ∧
+    -- `cd T; path = "."` (was: `[a, e(0)]`)
+    pathSetter witO witNoPat (envOf witFSa ["r", "P", "T"] ⟨false, ["."]⟩ witTa.files)
+      = .ok (Spec.created witO witNoPat witTa) ∧
+    -- `cd P; path = "T"`
+    pathSetter witO witNoPat (envOf witFSa ["r", "P"] ⟨false, ["T"]⟩ witTa.files)
+      = .ok (Spec.created witO witNoPat witTa) ∧
+    -- `cd /r/U; path = "/r/P/T"` with the decoys `U/T/a` (empty) and `U/T/e` (not empty) below the
+    -- cwd (was: `a` dropped because `U/T/a` is empty → no file at all)
+    pathSetter witO witNoPat (envOf witFSa' ["r", "U"] ⟨true, ["r", "P", "T"]⟩ witTa.files)
+      = .ok (Spec.created witO witNoPat witTa) ∧
+    pathSetter witO witNoPat (envOf witFSa' ["r", "U"] ⟨false, ["..", "P", "T"]⟩ witTa.files.reverse)
+      = .ok (Spec.created witO witNoPat witTa) := by decide
+
+example : Spec.hypB witNoPat (envOf witFSa ["r", "P", "T"] ⟨false, ["."]⟩ witTa.files) witTa = true ∧
+    Spec.hypB witNoPat (envOf witFSa' ["r", "U"] ⟨true, ["r", "P", "T"]⟩ witTa.files) witTa = true ∧
+    Spec.hypB witNoPat (envOf witFSa' ["r", "U"] ⟨false, ["..", "P", "T"]⟩ witTa.files.reverse) witTa
+      = true := by decide
 
 def witTb : Tree := ⟨"T", [⟨["a.txt"], 3⟩, ⟨["sub", "b.txt"], 1⟩]⟩
 def witFSb : FS := [(["r", "P", "T", "a.txt"], some 3), (["r", "P", "T", "sub", "b.txt"], some 1)]
@@ -149,7 +169,8 @@ theorem C15_created_counterexample_D15b : ¬ C15_created_full := by
   exact absurd (h witO witExA witTb witFSb ["r", "P", "T", "sub"] ⟨false, [".."]⟩ witTb.files
     (by decide) (by decide) (List.Perm.refl _)) (by decide)
 
-theorem C15_independent_counterexample_D15b : ¬ C15_independent_full := by
+/-- D15b: `cd T/sub; path = ".."` and `cd P; path = "T"` give different torrents. -/
+theorem C15_independent_counterexample : ¬ C15_independent_full := by
   intro h
   exact absurd (h witO witExA witTb witFSb witFSb ["r", "P", "T", "sub"] ["r", "P"]
     ⟨false, [".."]⟩ ⟨false, ["T"]⟩ witTb.files witTb.files
@@ -175,6 +196,17 @@ theorem C15_created_counterexample_D15c_hidden : ¬ C15_created_full := by
   exact absurd (h witO witNoPat witTc' witFSc' ["r", "P"] ⟨false, ["T"]⟩ witTc'.files
     (by decide) (by decide) (List.Perm.refl _)) (by decide)
 
+def witTcE : Tree := ⟨"T", [⟨["a.txt"], 3⟩, ⟨["e"], 0⟩]⟩
+def witFScE : FS := [(["r", "P", "T", "a.txt"], some 3), (["r", "P", "T", "e"], some 0)]
+
+/-- D15c as it reaches since d89a92e: the empty files are dropped *before* `filter_files` takes
+    the `commonpath`, so one non-empty file beside an empty one is enough — `commonpath` is
+    `T/a.txt`, the pattern is matched against `T/T/a.txt`, the file is kept. -/
+theorem C15_created_counterexample_D15c_beside_empty : ¬ C15_created_full := by
+  intro h
+  exact absurd (h witO witExA witTcE witFScE ["r", "P"] ⟨false, ["T"]⟩ witTcE.files
+    (by decide) (by decide) (List.Perm.refl _)) (by decide)
+
 def witTd : Tree := ⟨"T", [⟨["a"], 3⟩, ⟨["sub", "b"], 1⟩]⟩
 def witFSd : FS := [(["r", "P", "T", "a"], some 3), (["r", "P", "T", "sub", "b"], some 1)]
 
@@ -184,21 +216,75 @@ theorem C15_created_counterexample_D15d : ¬ C15_created_full := by
   exact absurd (h witO witNoPat witTd witFSd ["r", "P", "T"] ⟨false, ["sub", ".."]⟩ witTd.files
     (by decide) (by decide) (List.Perm.refl _)) (by decide)
 
+theorem C15_independent_counterexample_D15d : ¬ C15_independent_full := by
+  intro h
+  exact absurd (h witO witNoPat witTd witFSd witFSd ["r", "P", "T"] ["r", "P"]
+    ⟨false, ["sub", ".."]⟩ ⟨false, ["T"]⟩ witTd.files witTd.files
+    (by decide) (by decide) (by decide) (List.Perm.refl _) (List.Perm.refl _)) (by decide)
+
 /-- what the model answers on the witnesses -/
-example : pathSetter witO witNoPat (envOf witFSa ["r", "P", "T"] ⟨false, ["."]⟩ witTa.files)
-    = .ok (.multi "T" [(["a"], 3), (["e"], 0)]) ∧
-  Spec.created witO witNoPat witTa = .multi "T" [(["a"], 3)] ∧
+example :
   pathSetter witO witExA (envOf witFSb ["r", "P", "T", "sub"] ⟨false, [".."]⟩ witTb.files)
     = .ok (.multi "T" [(["a.txt"], 3), (["sub", "b.txt"], 1)]) ∧
   Spec.created witO witExA witTb = .multi "T" [(["sub", "b.txt"], 1)] ∧
   pathSetter witO witExA (envOf witFSc ["r", "P"] ⟨false, ["T"]⟩ witTc.files)
     = .ok (.multi "T" [(["a.txt"], 3)]) ∧
   Spec.created witO witExA witTc = .empty ∧
+  pathSetter witO witExA (envOf witFScE ["r", "P"] ⟨false, ["T"]⟩ witTcE.files)
+    = .ok (.multi "T" [(["a.txt"], 3)]) ∧
+  Spec.created witO witExA witTcE = .empty ∧
   pathSetter witO witNoPat (envOf witFSc' ["r", "P"] ⟨false, ["T"]⟩ witTc'.files)
     = .ok (.multi "T" [([".hid", "a"], 3), ([".hid", "b"], 1)]) ∧
   Spec.created witO witNoPat witTc' = .empty ∧
   pathSetter witO witNoPat (envOf witFSd ["r", "P", "T"] ⟨false, ["sub", ".."]⟩ witTd.files)
     = .ok (.multi "" [(["a"], 3), (["sub", "b"], 1)]) := by decide
+
+/-! ### empty files are never stored (every spelling, cwd, pattern set) -/
+
+/-- `_set_files` drops a file of size 0 when `os.path.exists` of the path it was listed with says
+    yes.  For `Torrent.path = …` those are the paths `list_files` has just found, so — with no
+    condition on the spelling (`..`, `sub/..` included), the cwd, the patterns or the shape of the
+    tree — no stored entry has length 0. -/
+theorem C15_no_empty_file (o : Oracles) (st : Settings) (env : Env)
+    (hex : ∀ f ∈ env.order, f.size = 0 →
+      env.pathExists (listedPath (pathlibNorm env.spelling) f) = true) :
+    ∀ e ∈ filesOf (pathSetter o st env), e.2 ≠ 0 :=
+  pathSetter_no_empty o st env hex
+
+/-- what the walk listed exists, wherever the tree is and however it is addressed -/
+theorem C15_listedExist_of_addresses (fs : FS) (cwd : Comps) (sp : PPath) (t : Tree)
+    (ord : List FileEnt) (hct : Spec.cleanTree t = true) (hadr : Addresses fs cwd sp t = true) :
+    Spec.listedExist (envOf fs cwd sp ord) t = true := by
+  unfold Spec.cleanTree at hct
+  simp only [Bool.and_eq_true, List.all_eq_true] at hct
+  unfold Addresses at hadr
+  simp only [Bool.and_eq_true, List.all_eq_true] at hadr
+  unfold Spec.listedExist
+  rw [List.all_eq_true]
+  intro f hf
+  exact fsExists_listed fs cwd sp f (List.all_eq_true.mpr (hct.1.1.2 f hf)) (hadr.1.2 f hf)
+
+/-- the same over the environments of the full statement: the tree anywhere in a file system,
+    any cwd, any spelling that leads to it -/
+theorem C15_no_empty_file_addressed (o : Oracles) (st : Settings) (t : Tree) (fs : FS)
+    (cwd : Comps) (sp : PPath) (ord : List FileEnt) (hct : Spec.cleanTree t = true)
+    (hadr : Addresses fs cwd sp t = true) (hord : ord.Perm t.files) :
+    ∀ e ∈ filesOf (pathSetter o st (envOf fs cwd sp ord)), e.2 ≠ 0 := by
+  apply C15_no_empty_file
+  intro f hf _
+  have h := C15_listedExist_of_addresses fs cwd sp t ord hct hadr
+  unfold Spec.listedExist at h
+  rw [List.all_eq_true] at h
+  exact h f (hord.mem_iff.mp hf)
+
+/-- non-vacuity and reach: the D15d spelling `sub/..` from inside a tree with an empty file —
+    the name is lost (D15d, open) but the empty file is not stored -/
+example :
+    Addresses witFSa ["r", "P", "T"] ⟨false, ["."]⟩ witTa = true ∧
+    pathSetter witO witNoPat
+      (envOf (witFSa ++ [(["r", "P", "T", "sub", "b"], some 1)]) ["r", "P", "T"]
+        ⟨false, ["sub", ".."]⟩ [⟨["a"], 3⟩, ⟨["e"], 0⟩, ⟨["sub", "b"], 1⟩])
+      = .ok (.multi "" [(["a"], 3), (["sub", "b"], 1)]) := by decide
 
 /-! ### sufficient conditions for `nameOK` in terms of the place the spelling leads to -/
 
@@ -251,8 +337,8 @@ def witE1 : Env := envOf witFSm ["r", "P"] ⟨false, ["..", "P", "T"]⟩ witTm.f
 def witE2 : Env := envOf witFSm ["r", "P", "T"] ⟨false, ["", "."]⟩ witTm.files.reverse
 /-- `cd /r/P; path = "/r/P/x/../T"` -/
 def witE3 : Env := envOf witFSm ["r", "P"] ⟨true, ["r", "P", "x", "..", "T"]⟩ witTm.files
-/-- `cd /r/Q; path = "/r/P/T/"`, nothing visible from the cwd, reversed walk order -/
-def witE4 : Env := envOf [] ["r", "Q"] ⟨true, ["r", "P", "T", ""]⟩ witTm.files.reverse
+/-- `cd /r/Q; path = "/r/P/T/"`, a cwd that does not exist in `witFSm`, reversed walk order -/
+def witE4 : Env := envOf witFSm ["r", "Q"] ⟨true, ["r", "P", "T", ""]⟩ witTm.files.reverse
 
 example : Spec.hypB witStm witE1 witTm = true := by decide
 example : Spec.hypB witStm witE2 witTm = true := by decide
@@ -265,7 +351,8 @@ example : pathSetter witO witStm witE1 = pathSetter witO witStm witE2 :=
 example : pathSetter witO witStm witE3 = .ok (.multi "T" [(["a.txt"], 3), (["sub", "c.log"], 2)]) :=
   C15_created_partial witO witStm witE3 witTm (by decide)
 
-/-- a tree with an empty and a hidden file, from its parent directory, two spellings/orders -/
+/-- a tree with an empty and a hidden file: from its parent directory (two spellings/orders),
+    from inside, from its hidden-file-free child-less self by absolute path elsewhere -/
 def witTn : Tree := ⟨"T", [⟨["a"], 3⟩, ⟨["e"], 0⟩, ⟨[".h"], 2⟩]⟩
 def witFSn : FS := [(["r", "P", "T", "a"], some 3), (["r", "P", "T", "e"], some 0),
   (["r", "P", "T", ".h"], some 2)]
@@ -273,7 +360,48 @@ example : Spec.hypB witNoPat (envOf witFSn ["r", "P"] ⟨false, ["T"]⟩ witTn.f
   decide
 example : Spec.hypB witNoPat (envOf witFSn ["r", "P"] ⟨false, [".", "T", ""]⟩ witTn.files.reverse)
     witTn = true := by decide
+example : Spec.hypB witNoPat (envOf witFSn ["r", "P", "T"] ⟨false, [".", ""]⟩ witTn.files) witTn = true := by
+  decide
+example : Spec.hypB witNoPat (envOf witFSn ["x"] ⟨true, ["r", "P", "T"]⟩ witTn.files) witTn = true := by
+  decide
 example : Spec.created witO witNoPat witTn = .multi "T" [(["a"], 3)] := by decide
+
+/-- all files empty, the only file empty (directory and single-file tree): nothing is created -/
+example :
+    Spec.hypB witNoPat (envOf [(["r", "P", "T", "e"], some 0), (["r", "P", "T", "s", "f"], some 0)]
+      ["r", "P", "T", "s"] ⟨true, ["r", "P", "T"]⟩ [⟨["e"], 0⟩, ⟨["s", "f"], 0⟩])
+      ⟨"T", [⟨["e"], 0⟩, ⟨["s", "f"], 0⟩]⟩ = true ∧
+    Spec.created witO witNoPat ⟨"T", [⟨["e"], 0⟩, ⟨["s", "f"], 0⟩]⟩ = .empty ∧
+    Spec.hypB witNoPat (envOf [(["r", "P", "e.bin"], some 0)] ["r"] ⟨false, ["P", "e.bin"]⟩ [⟨[], 0⟩])
+      ⟨"e.bin", [⟨[], 0⟩]⟩ = true ∧
+    Spec.created witO witNoPat ⟨"e.bin", [⟨[], 0⟩]⟩ = .empty := by decide
+
+/-- an empty file that an include pattern matches is still left out (cwd inside the tree) -/
+example :
+    let t : Tree := ⟨"T", [⟨["a"], 3⟩, ⟨["b"], 2⟩, ⟨["e"], 0⟩]⟩
+    let fs : FS := [(["r", "P", "T", "a"], some 3), (["r", "P", "T", "b"], some 2),
+      (["r", "P", "T", "e"], some 0)]
+    Spec.created witO ⟨["T/b"], [], ["T/e"], []⟩ t = .multi "T" [(["a"], 3)] ∧
+    Spec.hypB ⟨["T/b"], [], ["T/e"], []⟩ (envOf fs ["r", "P", "T"] ⟨false, ["."]⟩ t.files) t
+      = true := by decide
+
+/-! ### `Torrent.files = …` (outside C15's statement): what is left of the cwd dependence
+
+  The `File` objects of the `files` setter carry torrent-relative paths, so `os.path.exists(f)` is
+  a probe below the cwd: `File('T/e', 0)` is dropped where something called `T/e` exists and kept
+  (with length 0) elsewhere.  The sizes themselves are no longer re-read from the file system
+  (before d89a92e a non-empty `File('T/a', 3)` was dropped where an empty `T/a` existed). -/
+example :
+    filesSetter witO witNoPat ["r", "P"] (fsExists witFSa' ["r", "P"])
+      [(["T", "a"], 3), (["T", "e"], 0), (["T", "zz"], 0)]
+      = .ok (.multi "T" [(["a"], 3), (["zz"], 0)]) ∧
+    filesSetter witO witNoPat ["r", "Q"] (fsExists witFSa' ["r", "Q"])
+      [(["T", "a"], 3), (["T", "e"], 0), (["T", "zz"], 0)]
+      = .ok (.multi "T" [(["a"], 3), (["e"], 0), (["zz"], 0)]) ∧
+    -- the decoy `U/T/a` is empty, the given size 3 is what counts
+    filesSetter witO witNoPat ["r", "U"] (fsExists witFSa' ["r", "U"])
+      [(["T", "a"], 3), (["T", "e"], 0), (["T", "zz"], 0)]
+      = .ok (.multi "T" [(["a"], 3), (["zz"], 0)]) := by decide
 
 /-- a tree that is a single file -/
 example : Spec.hypB witNoPat (envOf [(["r", "P", "f.bin"], some 7)] ["r", "P"] ⟨false, ["f.bin"]⟩
